@@ -1374,9 +1374,32 @@ class Interp(Engine):
                 first = ""
             for key, clauses in self.contract.hints.items():
                 if key.startswith("before:") and first.startswith(key[7:].strip()):
+                    steps = []
                     for i, cl in enumerate(clauses):
-                        self.prove(self.eval_clause(cl), "hint", "%s[%d]" % (key, i), node.lineno, assume_after=True)
+                        focus = None
+                        if i > 0:
+                            from . import smt as _smt
+                            focus = [f for f in self.pc if not _smt._contains_quantifier(f)] + steps
+                        n0 = len(self.pc)
+                        self.prove(self.eval_clause(cl), "hint", "%s[%d]" % (key, i), node.lineno, assume_after=True, try_hyps=focus)
+                        steps.extend(self.pc[n0:])
         m(node)
+        if self.contract.hints and self.call_depth == 0 and not getattr(self.sh, "refute_bound", 0):
+            try:
+                first = ast.unparse(node).splitlines()[0].strip()
+            except Exception:
+                first = ""
+            for key, clauses in self.contract.hints.items():
+                if key.startswith("after:") and first.startswith(key[6:].strip()):
+                    steps = []
+                    for i, cl in enumerate(clauses):
+                        focus = None
+                        if i > 0:
+                            from . import smt as _smt
+                            focus = [f for f in self.pc if not _smt._contains_quantifier(f)] + steps
+                        n0 = len(self.pc)
+                        self.prove(self.eval_clause(cl), "hint", "%s[%d]" % (key, i), node.lineno, assume_after=True, try_hyps=focus)
+                        steps.extend(self.pc[n0:])
         if self.contract.ghost and self.call_depth == 0:
             try:
                 first = ast.unparse(node).splitlines()[0].strip()
@@ -1422,6 +1445,16 @@ class Interp(Engine):
         self.ev(node.value)
 
     def st_Assign(self, node):
+        lt = getattr(self.contract, "local_types", None)
+        if (lt and self.call_depth == 0 and len(node.targets) == 1 and isinstance(node.targets[0], ast.Name) and node.targets[0].id in lt
+                and isinstance(lt[node.targets[0].id], TMap)):
+            val = node.value
+            empty = (isinstance(val, ast.Dict) and not val.keys) or (
+                isinstance(val, ast.Call) and isinstance(val.func, ast.Name) and val.func.id == "dict" and not val.args and not val.keywords)
+            if empty:
+                # a local dict the contract declares as a heap map (keys may be symbolic): fresh empty map
+                self.env[node.targets[0].id] = self.new_map(lt[node.targets[0].id].valT)
+                return
         v = self.ev(node.value)
         for t in node.targets:
             self.assign_target(t, v)
